@@ -117,7 +117,12 @@ func readAll(data []byte, strict bool) (recs [][]byte, rerr error, panicked any)
 			panicked = r
 		}
 	}()
-	d := &dropCount{}
+	// with and without a Dropper (the package's documented example passes nil): alternate by
+	// stream length, so that every stream shape is read both ways across the enumeration
+	var d journal.Dropper = &dropCount{}
+	if len(data)%2 == 1 {
+		d = nil
+	}
 	r := journal.NewReader(bytes.NewReader(data), d, strict, true)
 	for guard := 0; guard < 1000; guard++ {
 		rd, err := r.Next()
